@@ -186,7 +186,9 @@ func createCompiledRouteHandler(route *ast.Route, bytecode []byte, wsHub *websoc
 
 		// Parse and inject request body as 'input' for POST/PUT/PATCH requests
 		bodyIsObject := true
-		if ctx.Request.Method == "POST" || ctx.Request.Method == "PUT" || ctx.Request.Method == "PATCH" {
+		// DELETE as well: RFC 7231 permits it to carry a body and the interpreter
+		// path reads one (executeRoute), so a compiled route must too.
+		if ctx.Request.Method == "POST" || ctx.Request.Method == "PUT" || ctx.Request.Method == "PATCH" || ctx.Request.Method == "DELETE" {
 			contentType := ctx.Request.Header.Get("Content-Type")
 			shouldParseJSON := contentType == "" ||
 				contentType == "application/json" ||
